@@ -88,6 +88,7 @@ def _plot_description(description, **kwargs):
                    'width': ticks(description.channel_width), 'height': ticks(description.channel_height)}
     CAP['ops'] = [_entry(o) for o in ops]
     CAP['pos'] = {id(o): i for i, o in enumerate(ops)}
+    CAP['objects'] = list(ops)
     return _orig_plot_description(description, **kwargs)
 
 
@@ -170,6 +171,10 @@ def handle(case):
             out['draw'] = d
         else:
             out['draw'] = None
+        # first what a user sees WITHOUT listing the circuit again (listing re-hands relation links and thereby invalidates the
+        # memo tables): the circuit duration, and the times of the operation objects the drawing listed
+        out['dur_first_after'] = ticks(c.duration)
+        out['held_after'] = [[ticks(o.start_time), ticks(o.end_time)] for o in CAP.get('objects', [])]
         out['after'] = full_obs(c)
         # reference: a twin built now from the same program, listed under the durations the drawing is made under
         clear_caches()
